@@ -40,7 +40,7 @@ def sessions():
           ("c", 0, "SETFH 5 1 %d %d %d %d" % (F2, F1, F1, F2)), ("d", 0, 0, 3, 1, 1, 148), ("t",), ("t",),
           ("c", 0, "POWEROFF"), ("t",), ("c", 1, "POWEROFF")]
     s2 = [("c", 0, "SETFORMAT 1"), ("c", 1, "SETFORMAT 1"), ("c", 1, "FAKE_TOA 10 2"), ("c", 1, "FAKE_RSSI -80 3"),
-          ("c", 1, "FAKE_CI 80 5"), ("c", 1, "FAKE_DROP 1 2"), ("c", 0, "SETTA 2"), ("c", 0, "SETPOWER 4"),
+          ("c", 1, "FAKE_CI 80 5"), ("c", 1, "FAKE_DROP 1 2"), ("c", 1, "FAKE_TRXC_DELAY 0"), ("c", 0, "SETTA 2"), ("c", 0, "SETPOWER 4"),
           ("c", 0, "RXTUNE %d" % F2), ("c", 0, "TXTUNE %d" % F1), ("c", 1, "RXTUNE %d" % F1), ("c", 1, "TXTUNE %d" % F2),
           ("c", 0, "POWERON"), ("c", 1, "POWERON"), ("t",), ("d", 0, 1, 4, 1, 2, 148), ("d", 0, 1, 5, 2, 2, 444), ("t",), ("t",),
           ("t",), ("c", 1, "RFMUTE 1"), ("d", 0, 1, 6, 1, 0, 148), ("t",), ("t",), ("c", 1, "RFMUTE 0"),
@@ -136,8 +136,10 @@ def data_is_ambiguous(p):
 
 
 # ---- one faulted run ------------------------------------------------------------------------------
-def run_one(extra, events, pos, port_kind, trx, payload):
-    """session prefix [0:pos], mutant, rest of the session.  Returns list of (class, msg)."""
+def run_one(extra, events, pos, port_kind, trx, payload, replace=False):
+    """session prefix [0:pos], mutant, rest of the session (replace: the mutant stands in for the valid
+    datagram at pos, so that whatever it configured is still in force when the traffic follows).
+    Returns list of (class, msg)."""
     defs = trxmodel.std_config(extra)
     W = AppWorld(defs)
     for ev in events[:pos]:
@@ -170,12 +172,14 @@ def run_one(extra, events, pos, port_kind, trx, payload):
         v = [x for x in v if x[0] == "exception" or x[0].startswith("reply")]
     if v:
         return [("not-serving", "after the fault: %s" % v[0][1])]
-    for ev in events[pos:]:
+    for ev in events[pos + 1 if replace else pos:]:
         v = do_event(W, ev)
-        if diverged:
+        if diverged or replace:
+            # (with the valid datagram left out the session is another one: only its survival is judged)
             v = [x for x in v if x[0] == "exception"]
         if v:
-            return [("after-fault-" + v[0][0], "rest of the session after the fault: %s" % v[0][1])]
+            return [("after-fault-" + v[0][0], "rest of the session after the fault%s: %s"
+                     % (" (sent in place of the valid command)" if replace else "", v[0][1]))]
     return []
 
 
@@ -203,11 +207,19 @@ def work_session(arg):
         v = run_one(extra, events, pos, ev[0], ev[1], p)
         res["cov"]["evaluations"] += 1
         res["cov"]["mutants"] += 1
+        rep = False
+        if not v and ev[0] == "c" and name.startswith("arg"):
+            # a numeric argument out of every sensible range: also *instead of* the valid command
+            v = run_one(extra, events, pos, ev[0], ev[1], p, replace=True)
+            rep = True
+            res["cov"]["evaluations"] += 1
+            res["cov"]["replacing_mutants"] = res["cov"].get("replacing_mutants", 0) + 1
         for c, m in v[:1]:
             fam = name.rstrip("0123456789").split("=")[0]
             res["viol"].append(("C14:py:%s:%s:%s" % (c, "ctrl" if ev[0] == "c" else "data", fam),
                                 {"leg": "session", "session": sname, "pos": pos, "kind": ev[0], "trx": ev[1],
-                                 "payload": p.hex(), "mutant": name}, "%s pos %d mutant %s (%r): %s" % (sname, pos, name, p[:40], m)))
+                                 "payload": p.hex(), "mutant": name, "replace": rep},
+                                "%s pos %d mutant %s (%r): %s" % (sname, pos, name, p[:40], m)))
     if not res["samples"] and muts:
         res["samples"].append({"session": sname, "pos": pos, "mutant": muts[len(muts) // 2][0], "payload": muts[len(muts) // 2][1][:40].hex()})
     return res
@@ -422,7 +434,7 @@ def replay(ctx, case):
     if leg == "session":
         extra, events = sessions()[case["session"]]
         p = bytes.fromhex(case["payload"])
-        v = run_one(extra, events, case["pos"], case["kind"], case["trx"], p)
+        v = run_one(extra, events, case["pos"], case["kind"], case["trx"], p, replace=bool(case.get("replace")))
         fam = case["mutant"].rstrip("0123456789").split("=")[0]
         for c, m in v[:1]:
             ctx.violation("C14:py:%s:%s:%s" % (c, "ctrl" if case["kind"] == "c" else "data", fam), case, m)
